@@ -23,11 +23,13 @@ import os
 #  the priority the execution already has; the switches stay so that an old tree can still be searched behind them)
 # (bw-in-latency, fixed too: a bandwidth change while a communication is still paying its latency activated it early; under the lazy
 #  network model it then never completed.  Was excluded by giving every link a null latency when a bandwidth profile exists.)
-#   bw-xtraffic      a bandwidth change on a link that carries only the cross-traffic of a communication corrupts that communication's sharing
-#                    penalty (abort when it becomes negative).  Excluded by switching cross-traffic off when a bandwidth profile exists.
+# (bw-xtraffic: a bandwidth change on a link that carries only the cross-traffic of a communication makes that communication's sharing
+#  penalty drift; it used to abort when the penalty became negative.  Since 7e2c4e4049 a non-positive penalty is never pushed to the LMM:
+#  no abort any more, and the drift is the same under every update algorithm, so it is not a C19 divergence: exclusion (cross-traffic
+#  switched off when a bandwidth profile exists) lifted; the stored input is kept as regress-bw-increase-crosstraffic.json.)
 #   ti-pstate        cpu/optim:TI ignores a pstate change for the executions already running.  Excluded: no TI configuration when the
 #                    workload changes a pstate.
-OPEN = set(x for x in os.environ.get("VF_C19_OPEN", "ti-profile-start,bw-xtraffic,ti-pstate").split(",") if x)
+OPEN = set(x for x in os.environ.get("VF_C19_OPEN", "ti-profile-start,ti-pstate").split(",") if x)
 MARGIN = 1e-6      # a suspend / resume closer than this to the start or the completion of its activity makes the case tie-prone: not decided
 
 
@@ -181,7 +183,7 @@ class C19(core.Prop):
             "Cases where a suspend or a resume lands within 1e-6 (relative) of the completion of its activity are tie-prone (discontinuous "
             "outcome) and counted invalid. Non-trivial: some activity sees >= 3 changes of its granted rate, or a profile is attached to a "
             "resource whose activities change rate.")
-    assumptions = ["tolerance 2e-9 s + 1e-12 x date: precision/timing is the granularity below which the models legally merge dates",
+    assumptions = ["tolerance 2 x (1 + number of earlier simulation steps shorter than 2e-9 s) x 1e-9 s + 1e-12 x date: precision/timing is the granularity below which the models legally merge dates",
                    "the default configuration is the reference; a defect common to all update algorithms is not visible to this differential "
                    "(C20/C21 look at absolute values)",
                    "known findings excluded by construction (counted in known/C19.json, replayed from replays/C19): TI with a speed profile "
@@ -338,6 +340,7 @@ class C19(core.Prop):
                        "configuration %s did not finish (the default one does): %s" % (name, run.crash_text()))
                 break
             vops = {(o["a"], o["i"]): o for o in run.ops()}
+            rdates = sorted(set([0.0] + [o["t_ret"] for o in rops.values() if o["t_ret"] is not None]))
             worst = None
             for key, o in sorted(rops.items()):
                 v = vops.get(key)
@@ -347,7 +350,11 @@ class C19(core.Prop):
                     break
                 if o["t_ret"] is None:
                     continue
-                tol = 2 * model.PREC_T + 1e-12 * abs(o["t_ret"])
+                # every simulation step shorter than precision/timing (a sleep of 1e-255 s lasts one precision quantum) may be
+                # rounded by each update algorithm in its own direction (TI credits no progress for it, Lazy ends 1e-9 early where Full ends
+                # 2e-9 late): each run is uncertain by (1 + number of such steps) quanta, the difference of two runs by twice that
+                tiny = sum(1 for x, y in zip(rdates, rdates[1:]) if y <= o["t_ret"] and y - x < 2 * model.PREC_T)
+                tol = 2 * (1 + tiny) * model.PREC_T + 1e-12 * abs(o["t_ret"])
                 d = abs(v["t_ret"] - o["t_ret"])
                 if d > tol and (worst is None or d > worst[0]):
                     worst = (d, key, o, v)
